@@ -552,6 +552,10 @@ impl Acct {
         // marathons: a slow drift (a fraction of a frame lost per call) only crosses the constant after
         // ~1e5..1e6 calls, and only when the constant is small (short filter)
         let marathon = rng.chance(0.12);
+        // every 8th stream (taken from the case index, no generator draw): bursts of calls whose mask switches
+        // the only channel off.  Such a call still consumes its input and reports its frame counts, so the
+        // accounting must run on as if the channel had been processed (C07-g1)
+        let masked_bursts = idx % 8 == 5 && !wrappers;
         if marathon {
             cfg.chunk = rng.ui(1, 3);
             if cfg.kind.is_sinc() && rng.bool() {
@@ -584,6 +588,7 @@ impl Acct {
             .with("relative_ratio_detour_calls_x1_x2", detour.map(|d| J::Arr(vec![J::Int(d.0 as i128), J::f(d.1), J::f(d.2)])).unwrap_or(J::Null))
             .with("through_allocating_wrappers", J::b(wrappers))
             .with("refused_setter_calls", J::b(refused))
+            .with("bursts_of_all_false_mask_calls", J::b(masked_bursts))
             .with("frames_budget", J::Int(frames_budget as i128));
         set_desc(&desc);
         let mut cr = CaseResult { desc, ..Default::default() };
@@ -698,10 +703,19 @@ impl Acct {
                 let wv: Vec<&[T]> = wi.iter().map(|c| &c[..n]).collect();
                 let rr = if calls % 2 == 0 { r.process(&wv, None) } else { r.process_partial(Some(&wv), None) };
                 rr.map(|v| (n, v.first().map(|c| c.len()).unwrap_or(0)))
-            } else if cfg.via_dyn {
-                r.as_dyn().process_into_buffer(&wi, &mut wo, None)
             } else {
-                r.process_into_buffer(&wi, &mut wo, None)
+                let off = [false];
+                let mask: Option<&[bool]> = if masked_bursts && (calls / 5) % 4 == 1 {
+                    st.add("calls_with_all_false_mask", 1.0);
+                    Some(&off)
+                } else {
+                    None
+                };
+                if cfg.via_dyn {
+                    r.as_dyn().process_into_buffer(&wi, &mut wo, mask)
+                } else {
+                    r.process_into_buffer(&wi, &mut wo, mask)
+                }
             };
             let (i, o) = match res {
                 Ok(x) => x,
